@@ -1,16 +1,19 @@
 #!/bin/bash
-# usage: try_seed.sh <dir with patch.diff> <property> [tier]   -- applies the patch to /repo, runs the check, reverts
+# usage: try_seed.sh <dir with patch.diff> <property> [tier]
+# Applies the patch to a scratch worktree of /repo's HEAD (never to /repo itself), runs the check of
+# the property against that worktree, removes the worktree.
 src="$1"; prop="$2"; tier="${3:-quick}"
 VROOT="${VROOT:-$(cd "$(dirname "$0")/.." && pwd)}"
-cd /repo || exit 2
-if [ -n "$(git status --porcelain)" ]; then echo "repo not clean"; exit 2; fi
-git apply "$src/patch.diff" || { echo "patch does not apply"; exit 2; }
+wt="/tmp/seedrepo-$$"
+git -C /repo worktree add -q --detach "$wt" HEAD || exit 2
+cleanup() { git -C /repo worktree remove --force "$wt" >/dev/null 2>&1; }
+trap cleanup EXIT
+(cd "$wt" && git apply "$src/patch.diff") || { echo "patch does not apply"; exit 2; }
 cd "$VROOT"
-VERIF_SEED="${VERIF_SEED:-1}" ./check.sh "$prop" "$tier" > "/tmp/try-$prop-$$.log" 2>&1
+VERIF_REPO="$wt" VERIF_SEED="${VERIF_SEED:-1}" ./check.sh "$prop" "$tier" > "/tmp/try-$prop-$$.log" 2>&1
 rc=$?
-git -C /repo checkout -- .
 echo "== $(basename $src) $prop $tier exit=$rc"
-grep -E "^(VIOLATION|  |INFRA|KNOWN)" "/tmp/try-$prop-$$.log" | cut -c1-400 | head -8
+grep -E "^(VIOLATION|  |INFRA|KNOWN)" "/tmp/try-$prop-$$.log" | grep -v "  divergence" | cut -c1-400 | head -8
 grep -E "^NOTE" "/tmp/try-$prop-$$.log" | cut -c1-200 | head -6
 rm -f "/tmp/try-$prop-$$.log"
 exit $rc
